@@ -15,7 +15,7 @@ from rv.probes import ReachProbe
 
 PROP = 'C02'
 LEVEL = 'exploration'
-RULE = ('exhaustive: every string of length <= L (L=4 quick, 5 thorough) over the 18-symbol escape alphabet '
+RULE = ('exhaustive: every string of length <= L (L=4 quick, 6 thorough) over the 18-symbol escape alphabet '
         '[\\ " \' CR LF TAB VT BS FF BEL ? / n t a x SPACE {], both escaping modes, each fed through the real '
         'tokenizer; random: strings over all Unicode scalar values (len<=64) plus every BMP code point once '
         '(thorough); embedded: the escaped text planted as key / value / middle sibling of a line and read by the '
@@ -186,7 +186,7 @@ def main(run, shard=(0, 1)) -> None:
     })
     probe.start()
     thorough = run.tier == 'thorough'
-    L = 5 if thorough else 4
+    L = 6 if thorough else 4
     # ---- exhaustive core
     idx = 0
     evals = nontriv = 0
@@ -210,7 +210,7 @@ def main(run, shard=(0, 1)) -> None:
     run.sample({'s': '\\\n"', 'multiline': True, 'escaped': tk.escape_text('\\\n"', True)}, 'exhaustive')
 
     # ---- random Unicode strings
-    n_rand = 60000 if thorough else 6000
+    n_rand = 500000 if thorough else 6000
     for i in range(n_rand):
         if not mine(i, shard):
             continue
